@@ -1495,7 +1495,8 @@ type state0 = { pc : (nat -> call_pc); reg : (n * nat) list;
                 ch0 : (nat -> n option); next : nat; status : (nat -> bool);
                 broken : (nat -> bool); rq : (nat -> nat);
                 loops : (nat -> nat); wire : (nat -> packet list);
-                emitted : (n * n) list; delivered : (nat * n) list }
+                emitted : (n * n) list; delivered : (nat * n) list;
+                since0 : (nat -> nat) }
 
 val set_pc : state0 -> (nat -> call_pc) -> state0
 
@@ -1519,6 +1520,10 @@ val set_emitted : state0 -> (n * n) list -> state0
 
 val set_delivered : state0 -> (nat * n) list -> state0
 
+val set_since : state0 -> (nat -> nat) -> state0
+
+val silence_ticks : nat
+
 val cupd : (nat -> 'a1) -> nat -> 'a1 -> nat -> 'a1
 
 val lookup0 : n -> (n * nat) list -> nat option
@@ -1537,6 +1542,7 @@ type label0 =
 | LUnregister of nat
 | LDrop of nat
 | LPingFail of nat
+| LTick0 of nat
 | LSilence of nat
 | LReconnectEnter of nat
 | LReconnectDone of nat
